@@ -563,14 +563,17 @@ var hostileTokens = []string{
 }
 
 // HostileMarkup assembles a string from marker fragments and hostile bytes.
-func HostileMarkup(r *core.Rand) string {
+func HostileMarkup(r *core.Rand) string { return HostileMarkupN(r, 14, 64) }
+
+// HostileMarkupN assembles up to maxTokens fragments and cuts the result at maxLen bytes.
+func HostileMarkupN(r *core.Rand, maxTokens, maxLen int) string {
 	var b strings.Builder
-	for k := r.Range(0, 14); k > 0; k-- {
+	for k := r.Range(0, maxTokens); k > 0; k-- {
 		b.WriteString(hostileTokens[r.Intn(len(hostileTokens))])
 	}
 	s := b.String()
-	if len(s) > 64 {
-		s = s[:64]
+	if len(s) > maxLen {
+		s = s[:maxLen]
 	}
 	return s
 }
